@@ -23,3 +23,6 @@ mod c14;
 
 #[path = "/verif/harness/incrate/wire_c13.rs"]
 mod c13;
+
+#[path = "/verif/harness/incrate/wire_c15.rs"]
+mod c15;
